@@ -13,15 +13,15 @@ CONSTANTS Depth, FgChoices, BgChoices, AttrChoices
 VARIABLES obj,     \* the style object's attributes now: [fg, bg, at (set)]
           hist,    \* operations so far: [op |-> "use", way, col, style, msg, out] | [op |-> "set", f, c, b]
           phase,   \* "idle" | "run"
-          cway
-hvars == <<vars, obj, hist, phase, cway>>
+          cway, csame
+hvars == <<vars, obj, hist, phase, cway, csame>>
 
 FewFg == {NoColour, "red", "white"}
 FewBg == {NoColour, "blue"}
 FewAttrs == {"bold", "conceal"}
-MoreFg == {NoColour, "red", "white", "default", "light_gray"}
-MoreBg == {NoColour, "blue", "default", "yellow"}
-MoreAttrs == {"bold", "underline", "italic", "conceal"}
+MoreFg == {NoColour, "red", "white", "default"}
+MoreBg == {NoColour, "blue", "default"}
+MoreAttrs == {"bold", "underline", "conceal"}
 OrderedAttrs == <<"bold", "dark", "italic", "underline", "blink", "reverse", "conceal">>
 SeqOfSet(S) == SelectSeq(OrderedAttrs, LAMBDA a : a \in S)
 StyleNow(w) == [named |-> TRUE, name |-> "ts", sup |-> IF w = 1 THEN "set" ELSE IF w = 2 THEN "added" ELSE "",
@@ -33,7 +33,7 @@ MsgOf(w) == IF w \in {1, 2} THEN <<[k |-> "open", tag |-> StyleNow(w)], One, [k 
 
 HInit == /\ Start(<<>>, <<>>, FALSE)
          /\ obj \in [fg : {NoColour, "red"}, bg : {NoColour}, at : {{}, {"bold"}}]
-         /\ hist = <<>> /\ phase = "idle" /\ cway = 0
+         /\ hist = <<>> /\ phase = "idle" /\ cway = 0 /\ csame = FALSE
 
 TrailingSets == IF hist = <<>> THEN 0
                 ELSE IF hist[Len(hist)].op # "set" THEN 0
@@ -44,27 +44,31 @@ SetColour(f, c) == /\ phase = "idle" /\ hist # <<>> /\ Len(hist) < Depth - 1 /\ 
                    /\ obj[f] # c
                    /\ obj' = [obj EXCEPT ![f] = c]
                    /\ hist' = Append(hist, [op |-> "set", f |-> f, c |-> c, b |-> FALSE])
-                   /\ UNCHANGED <<vars, phase, cway>>
+                   /\ UNCHANGED <<vars, phase, cway, csame>>
 SetAttr(a, b) == /\ phase = "idle" /\ hist # <<>> /\ Len(hist) < Depth - 1 /\ TrailingSets < 2
                  /\ (a \in obj.at) # b
                  /\ obj' = [obj EXCEPT !.at = IF b THEN @ \cup {a} ELSE @ \ {a}]
                  /\ hist' = Append(hist, [op |-> "set", f |-> a, c |-> "", b |-> b])
-                 /\ UNCHANGED <<vars, phase, cway>>
+                 /\ UNCHANGED <<vars, phase, cway, csame>>
 
-Use(w, c) == /\ phase = "idle" /\ Len(hist) < Depth /\ (IF hist = <<>> THEN TRUE ELSE hist[Len(hist)].op = "set")
+\* same = TRUE: the use goes to the formatter object of the earlier uses (add_style again / format again) or, for
+\* way 1, a new formatter is built from the style set object of the earlier uses - the codes are those of the
+\* attributes now in every case (P and A do not depend on `same`)
+Use(w, c, same) == /\ phase = "idle" /\ Len(hist) < Depth /\ (IF hist = <<>> THEN TRUE ELSE hist[Len(hist)].op = "set")
              /\ Reset(MsgOf(w), IF w = 3 THEN <<StyleNow(w)>> ELSE <<>>, c)
-             /\ phase' = "run" /\ cway' = w
+             /\ (same => hist # <<>>)
+             /\ phase' = "run" /\ cway' = w /\ csame' = same
              /\ UNCHANGED <<obj, hist>>
-Run == phase = "run" /\ ~done /\ Step /\ UNCHANGED <<obj, hist, phase, cway>>
+Run == phase = "run" /\ ~done /\ Step /\ UNCHANGED <<obj, hist, phase, cway, csame>>
 Used == /\ phase = "run" /\ done
-        /\ hist' = Append(hist, [op |-> "use", way |-> cway, col |-> col, style |-> StyleNow(cway), msg |-> msg, out |-> out])
+        /\ hist' = Append(hist, [op |-> "use", way |-> cway, same |-> csame, col |-> col, style |-> StyleNow(cway), msg |-> msg, out |-> out])
         /\ phase' = "idle"
-        /\ UNCHANGED <<vars, obj, cway>>
+        /\ UNCHANGED <<vars, obj, cway, csame>>
 
 HNext == \/ \E c \in FgChoices : SetColour("fg", c)
          \/ \E c \in BgChoices : SetColour("bg", c)
          \/ \E a \in AttrChoices, b \in BOOLEAN : SetAttr(a, b)
-         \/ \E w \in 1..3, c \in BOOLEAN : Use(w, c)
+         \/ \E w \in 1..3, c \in BOOLEAN, same \in BOOLEAN : Use(w, c, same)
          \/ Run \/ Used
 HSpec == HInit /\ [][HNext]_hvars
 
